@@ -409,8 +409,8 @@ def mask_for(n, m):
 class Bundle:
     """Prototype arguments for one (entry, kinds, n); instantiate() gives fresh copies for one call."""
 
-    def __init__(self, e, kinds, n, bad_len_arg=None):
-        self.e, self.kinds, self.n = e, kinds, n
+    def __init__(self, e, kinds, n, bad_len_arg=None, runs=False):
+        self.e, self.kinds, self.n, self.runs = e, kinds, n, runs
         self.protos = []
         divlike = any(s in e.name for s in ("div", "mod", "Div", "Mod"))
         m = 2 * n + 3
@@ -440,6 +440,24 @@ class Bundle:
                 ai += 1
             else:
                 self.protos.append(("scalar", make_scalar(st, 5, k, True), (st, 5, k)))
+        if runs:
+            self.make_runs()
+
+    def make_runs(self):
+        """second data set: the element SEQUENCE every argument presents is constant on runs of five consecutive
+        positions ((i+2)//5), placed so that a run straddles every cut of the alphabets (0|1, 103..107, 198..202,
+        203..207) — an implementation that peeks at a neighbouring element (or at a neighbouring sub-range's output)
+        is only visible when neighbours are equal."""
+        for idx, p in enumerate(self.protos):
+            k = idx
+            if p[0] == "arr" and len(p[1]) == self.n:
+                et = elem_type_of_array(self.e.args[k])
+                for i in range(self.n):
+                    p[1][i] = make_scalar(et, (i + 2) // 5, k, k > 0)
+            elif p[0] == "marr" and len(p) == 4:
+                et = elem_type_of_array(self.e.args[k])
+                for i, j in enumerate(p[3]):
+                    p[1][j] = make_scalar(et, (i + 2) // 5, k, k > 0)
 
     def instantiate(self):
         args, keep = [], []
@@ -679,16 +697,24 @@ def explore_entry(e, tier, deadline_at):
         res["fails"].append((site, inp, exp, got))
 
     combos = kind_combos(e, not thorough)
-    for kinds in combos:
+    # data set 0: all elements different; data set 1 ("runs"): equal neighbours across every cut — for the all-plain and
+    # the all-masked argument kinds (thorough: every kind)
+    plan = [(kinds, False) for kinds in combos]
+    plan += [(kinds, True) for kinds in (combos if thorough else [combos[0], tuple(MASKED for _ in combos[0])]) if kinds in combos]
+    seen_plan = set()
+    for kinds, runs in plan:
+        if (kinds, runs) in seen_plan:
+            continue
+        seen_plan.add((kinds, runs))
         if time.time() > deadline_at:
             res["partial"] = True
             break
         try:
-            bundle = Bundle(e, kinds, n)
+            bundle = Bundle(e, kinds, n, runs=runs)
         except Exception as ex:                 # noqa: BLE001
             res["skipped"] = "cannot build arguments (%s: %s)" % (type(ex).__name__, ex)
             return res
-        kl = "/".join(kinds)
+        kl = "/".join(kinds) + (" data=runs-of-5" if runs else "")
         # ---- reference: no pool installed
         verifpool.uninstall()
         try:
@@ -795,7 +821,7 @@ def explore_entry(e, tier, deadline_at):
         res["states"] += len(seen_states)
         # ---- O1 at the dispatch threshold (thorough, all-plain arguments): n = 201 with EVERY single cut 1..200 in both
         # orders; n = 200 and 199 must give the same result with a pool installed (the pool may or may not be entered)
-        if thorough and kinds == combos[0] and x0 is None and time.time() < deadline_at:
+        if thorough and kinds == combos[0] and not runs and x0 is None and time.time() < deadline_at:
             for n2, every in ((201, True), (200, False), (199, False)):
                 try:
                     b2 = Bundle(e, kinds, n2)
@@ -859,7 +885,7 @@ def explore_entry(e, tier, deadline_at):
         verifpool.uninstall()
         # ---- O4: mismatched lengths raise
         k = array_arg_count(e)
-        if k >= 2 and kinds == combos[0]:
+        if k >= 2 and kinds == combos[0] and not runs:
             for bad in range(1, k):
                 try:
                     b2 = Bundle(e, kinds, n, bad_len_arg=bad)
@@ -1012,6 +1038,8 @@ def main():
             for k, v in r["classes"].items():
                 kk = k
                 if k.startswith("kinds:"):
+                    if "runs-of-5" in k:
+                        R.cls("data:equal-neighbours-across-every-cut", v)
                     kk = "kinds:masked" if "masked" in k else "kinds:plain"
                 R.cls(kk, v)
             R.cls("o3-scalar-compared", 1 if r["o3"] else 0)
